@@ -806,6 +806,58 @@ def lane_ctor(ctx):
     return lc.run()
 
 
+FALSY = [None, 0, False, '', {}, [], b'', 0.0, -0.0, D(0), D('-0.00'), bytearray()]
+
+
+def lane_ctor_args(ctx, rounds=6):
+    """Cls(v1, ..., vn): attribute values after __init__ for GIVEN arguments - the `x or {}` normalisations
+    on falsy and truthy values of every kind, and the trailing validate() of the validating classes"""
+    lc = Lane('ctor_args')
+    g = ctx.gen
+    for meta in ctx.generated['catalogue']['methods']:
+        if not meta['args']:
+            continue
+        cls = commands.INDEX_MAPPING[meta['key']]
+        n = len(meta['args'])
+        for rnd in range(rounds):
+            vals = method_vals_ok(ctx, cls, meta)
+            for i in range(n):
+                k = g.r.random()
+                if k < 0.25:
+                    vals[i] = g.r.choice(FALSY)
+                elif k < 0.35:
+                    vals[i] = g.value_ok(1, 2)
+                elif k < 0.45:
+                    rules = [ru for ru in meta['rules'] if ru.get('attr') == meta['args'][i]['name']]
+                    if rules:
+                        vals[i] = g.r.choice(constraint_values(ctx, g.r.choice(rules)))
+
+            def mk(cls=cls, vals=vals):
+                o = cls(*vals)
+                return [getattr(o, a) for a in cls.__slots__]
+            lc.try_add(lambda: 'api.constructwith %d' % meta['key'] + ''.join(' ' + sx(x) for x in vals),
+                       lambda: outcome(mk, show=lambda vs: ' '.join(sx(v) for v in vs)), '%s%r' % (meta['name'], vals), meta['name'])
+    pm = ctx.generated['catalogue']['properties']
+    pnames = [p['name'] for p in pm['props']]
+    for rnd in range(rounds * 6):
+        vals = props_vals(ctx, g.r.getrandbits(len(pnames)))
+        for i in range(len(pnames)):
+            k = g.r.random()
+            if k < 0.08:
+                vals[i] = g.r.choice(FALSY)
+            elif k < 0.2:
+                rules = [ru for ru in pm['rules'] if ru.get('attr') == pnames[i]]
+                if rules:
+                    vals[i] = g.r.choice(constraint_values(ctx, g.r.choice(rules)))
+
+        def mkp(vals=vals):
+            o = commands.Basic.Properties(*vals)
+            return [getattr(o, a) for a in commands.Basic.Properties.__slots__]
+        lc.try_add(lambda: 'api.constructprops' + ''.join(' ' + sx(x) for x in vals),
+                   lambda: outcome(mkp, show=lambda vs: ' '.join(sx(v) for v in vs)), 'Properties%r' % (vals,), 'Basic.Properties')
+    return lc.run()
+
+
 # =============================================================== API sequences (C11 toggle, C16)
 
 RECURRING = [lambda: {'k' * 130: 1}, lambda: {'\u20ac' * 100: 'x', 'a': 1}, lambda: {'x-message-ttl': 60000, 'x-max-length-bytes': 3000000000},
